@@ -94,13 +94,23 @@ type World struct {
 	Pruned map[string]bool // ids that were pruned during this history
 	Seen   map[string]bool // every id ever issued
 	seq    int
+	StepNo int
+	// Twin, when set, is a copy of the store that was compacted at the fork point; every
+	// later op is applied to both and the outcomes must agree (C05).
+	Twin         *World
+	TouchedSince map[string]bool // main-store ids touched or created since the fork
 }
 
 func NewWorld(tag string) *World {
 	return &World{Root: NewStore(tag), Pruned: map[string]bool{}, Seen: map[string]bool{}, Origin: map[string][2]int{}, ByOrig: map[[2]int]string{}}
 }
 
-func (w *World) Close() { RemoveAll(w.Root) }
+func (w *World) Close() {
+	RemoveAll(w.Root)
+	if w.Twin != nil {
+		RemoveAll(w.Twin.Root)
+	}
+}
 
 func (w *World) Resolve(r Ref) string {
 	if r.Op >= 0 {
@@ -299,6 +309,8 @@ func (w *World) Build(op Op) Cmd {
 		sub = append(sub, "compact")
 	case "init":
 		sub = append(sub, "init")
+	case "fork_compact":
+		sub = append(sub, "compact") // executed on the twin only
 	default:
 		panic("unknown op kind " + op.Kind)
 	}
